@@ -46,7 +46,7 @@ def caught : List (String × List String) := [
   ("pickle", ["fickling.fickle.PickleDecodeError"]),
   ("plist", ["xml.parsers.expat.ExpatError", "builtins.ValueError", "builtins.IndexError", "builtins.AttributeError", "builtins.LookupError", "builtins.MemoryError", "builtins.OverflowError", "builtins.RecursionError"]),
   ("xml", ["xml.etree.ElementTree.ParseError", "builtins.LookupError", "builtins.ValueError"]),
-  ("yaml", ["yaml.error.YAMLError", "builtins.ValueError"])
+  ("yaml", ["yaml.error.YAMLError", "builtins.ValueError", "builtins.AttributeError", "builtins.LookupError"])
 ]
 
 /-- what each type's external parser raises on invalid syntax: the hand list of harness/gentables.py united with
